@@ -95,6 +95,10 @@ func TestCheck(t *testing.T) {
 	var gcases []string
 	var gjs []any
 	seenG := map[string]bool{}
+	// (e) the product provider x group (Model/Ingest.v): the same runs with the alerts as SUBMITTED; the model's provider
+	// computes what is stored and handed to the group
+	runN := vh.NewRun(env, "AM.Run.IngestRun")
+	runN.Prefix = "n"
 	for i := range scs {
 		sc := &scs[i]
 		sc.Fix()
@@ -116,6 +120,17 @@ func TestCheck(t *testing.T) {
 			runA.Add(term, replayCase{Kind: "scenario", Sc: sc}, stats["tick"] >= 1 && stats["insert"] >= 2)
 			for name := range stats {
 				runA.Count("group_cases_with", name)
+			}
+			if it, ist, ok := res.IngestCase(k); ok {
+				runN.Add(it, replayCase{Kind: "scenario", Sc: sc}, ist["submission-merged-with-stored"] >= 1 || (ist["submission"] >= 3 && ist["tick"] >= 1))
+				runN.Count("ingest_groups", "compared")
+				for name := range ist {
+					if name == "submission-merged-with-stored" || name == "provider-gc" || name == "submission" {
+						runN.Count("ingest_cases_with", name)
+					}
+				}
+			} else {
+				runN.Count("ingest_groups", "skipped: provider GC and a submission at the same instant")
 			}
 		}
 		runA.Count("groups_per_scenario", fmt.Sprintf("%d", len(keys)))
@@ -145,6 +160,9 @@ func TestCheck(t *testing.T) {
 	}
 	runB.Count("grouping_cases", "distinct (group_by, alert, group labels) triples")
 	if err := runB.Finish("distinct (route group_by, alert labels, group labels) triples read from Dispatcher.Groups after every operation"); err != nil {
+		t.Fatal(err)
+	}
+	if err := runN.Finish("the same whole-instance scenarios as (a), one case per aggregation group for the product provider x group (Model/Ingest.v): every alert as SUBMITTED to the provider (all label sets), provider GCs that deleted something, and the group's events; the model's provider computes what is stored / handed on (overlap merge), so each flush instant and content must follow from the submissions; non-trivial = a submission that was merged with the stored alert, or >= 3 submissions and a flush"); err != nil {
 		t.Fatal(err)
 	}
 	// ---- (c) concurrent group map ----
